@@ -133,9 +133,11 @@ def vfmt(fmt, args):
         a = tup[ai]
         ai += 1
         if conv == "d" and isinstance(a, (SInt, ZInt)):
+            neg = False
             if isinstance(a, ZInt):
                 if not bool(a >= 0):
-                    raise Unsupported("negative symbolic integer in %d")
+                    neg = True
+                    a = ZInt(-a.e)
             # fork on the number of decimal digits
             k = 1
             while True:
@@ -146,15 +148,15 @@ def vfmt(fmt, args):
                 if bool(a < 10 ** k):
                     break
                 k += 1
-            n = max(k, width if zero else k)
             digs = _digits_of(a, k)
-            if n > k:
-                pad = ["0"] * (n - k) if zero else [" "] * (n - k)
+            sign = ["-"] if neg else []
+            body = k + len(sign)
+            if width and width > body:
+                # zero padding goes between the sign and the digits, blanks in front of the sign
+                cells = (sign + ["0"] * (width - body) + digs) if zero else ([" "] * (width - body) + sign + digs)
             else:
-                pad = []
-            if width and not zero and width > k:
-                pad = [" "] * (width - k)
-            out = out + SStr(pad + digs, [1] * (len(pad) + k))
+                cells = sign + digs
+            out = out + SStr(cells, [1] * len(cells))
         elif conv in "sd" and not isinstance(a, (SInt, ZInt, SStr, SBytes)):
             out = out + (("%" + zero + (str(width) if width else "") + conv) % a)
         elif conv == "s" and isinstance(a, SStr):
